@@ -86,11 +86,12 @@ Lemma resume_not_suspended : forall s k c, get k (cos s) = Some c -> co_st c <> 
   co_resume k [] s = (CErr MCO_NOT_SUSPENDED, s).
 Proof.
   intros s k c G N. unfold co_resume, mco_resume. rewrite G.
-  destruct (cstate_eqb (co_st c) Suspended) eqn:E; [apply cstate_eqb_eq in E; contradiction|]. reflexivity.
+  destruct (cstate_eqb (co_st c) Suspended) eqn:E; [apply cstate_eqb_eq in E; contradiction|].
+  simpl. destruct RESUME_ROLLS_BACK_ARGS; reflexivity.
 Qed.
 
 Lemma resume_nil : forall s k, get k (cos s) = None -> co_resume k [] s = (CErr MCO_INVALID_COROUTINE, s).
-Proof. intros s k G. unfold co_resume, mco_resume. rewrite G. reflexivity. Qed.
+Proof. intros s k G. unfold co_resume, mco_resume. rewrite G. simpl. destruct RESUME_ROLLS_BACK_ARGS; reflexivity. Qed.
 
 Lemma current_running : forall s k, Inv s -> current s = Some k ->
   exists c, get k (cos s) = Some c /\ co_st c = Running.
@@ -138,7 +139,6 @@ Qed.
 (* ---- "an error leaves the state unchanged" *)
 Definition benign (o : op) (s : state) : Prop :=
   match o with
-  | OResume k vals => vals = [] \/ get k (cos s) = None \/ (exists c, get k (cos s) = Some c /\ co_st c = Suspended)
   | OPop k lens => List.length lens <= 1
   | _ => True
   end.
@@ -164,23 +164,9 @@ Lemma error_unchanged : forall o s r s',
   Inv s -> benign o s -> api o s = Some (CErr r, s') -> s' = s.
 Proof.
   intros o s r s' I B H. destruct o; simpl in H; try discriminate.
-  - (* resume *)
-    inversion H as [H1]; clear H. simpl in B. unfold co_resume in H1.
-    destruct vals as [|v vr].
-    + destruct (mco_resume k s) as [e s2] eqn:R. inversion H1; subst.
-      eapply mco_resume_err; eauto. eapply cres_of_err; eauto.
-    + destruct (co_push k (v :: vr) s) as [r1 s1] eqn:P.
-      destruct r1.
-      * destruct B as [B|[B|(c & G & Hs)]]; [discriminate| |].
-        { rewrite co_push_nil in P by assumption. inversion P. }
-        { (* pushed fine, and the coroutine is suspended: the resume cannot fail *)
-          exfalso. destruct (mco_resume k s1) as [e s2] eqn:R. inversion H1 as [[H2 H3]].
-          pose proof (co_push_same _ _ _ _ _ I P) as (_ & A2 & _).
-          specialize (A2 k). rewrite G in A2. unfold mco_resume in R.
-          destruct (get k (cos s1)) as [c1|]; [|discriminate].
-          simpl in A2. inversion A2 as [[A3 A4]]. rewrite A3, Hs in R. simpl in R. inversion R; subst. discriminate. }
-      * inversion H1; subst. eapply push_rollback; eauto.
-      * inversion H1.
+  - (* resume: a failed push is rolled back by coroutine.push, a refused resume pops its arguments again *)
+    inversion H as [H1]; clear H.
+    destruct (co_resume_cases _ _ _ _ _ I H1) as [(X & _)|(_ & ->)]; [discriminate|reflexivity].
   - (* yield *)
     inversion H as [H1]; clear H. unfold co_yield in H1.
     destruct (current s) as [k|] eqn:Ecur; [|inversion H1; reflexivity].
@@ -223,36 +209,9 @@ Proof.
     + cbn [andb] in H1. inversion H1; subst. eapply mco_destroy_err; eauto. intro; subst; discriminate.
 Qed.
 
-(* the full-strength statement, over all histories and all calls of the library *)
-Definition error_unchanged_full : Prop :=
-  forall gc ops o r s', let s := fst (run ops (init gc)) in
-  api o s = Some (CErr r, s') -> s' = s.
-
-(* still refuted, but no longer by destroy: a resume WITH arguments of a coroutine that is not suspended
-   pushes the arguments before the state check and does not take them back (documented order) *)
-Lemma error_unchanged_refuted : ~ error_unchanged_full.
-Proof.
-  intro H.
-  pose (s := fst (run [OCreate 0 [] false; OResume 0 []] (init true))).
-  pose (s' := snd (co_resume 0 [[7%Z]] s)).
-  specialize (H true [OCreate 0 [] false; OResume 0 []] (OResume 0 [[7%Z]]) MCO_NOT_SUSPENDED s').
-  assert (A : api (OResume 0 [[7%Z]]) s = Some (CErr MCO_NOT_SUSPENDED, s')) by (vm_compute; reflexivity).
-  specialize (H A).
-  assert (N : option_map co_stored (get 0 (cos s')) <> option_map co_stored (get 0 (cos s))) by (vm_compute; discriminate).
-  apply N. fold s in H. rewrite H. reflexivity.
-Qed.
-
-(* the two documented exceptions, as witnesses: a resume with arguments pushes them before the state
-   check and does not take them back; a multi-value pop is not rolled back *)
-Lemma error_unchanged_refuted_resume_args :
-  exists ops o r s', let s := fst (run ops (init false)) in api o s = Some (CErr r, s') /\ s' <> s.
-Proof.
-  exists [OCreate 0 [] false; OResume 0 []], (OResume 0 [[7%Z]]), MCO_NOT_SUSPENDED.
-  eexists. split; [vm_compute; reflexivity|].
-  intro H. apply (f_equal (fun s => option_map co_stored (get 0 (cos s)))) in H. vm_compute in H. discriminate.
-Qed.
-
-Lemma error_unchanged_refuted_multi_pop :
+(* why the one exclusion of [benign] is needed: a coroutine.pop of several values that fails midway keeps what it
+   popped (documented: "the values may not be set"; its exact effect is co_pop_effect in ProofsOps.v) *)
+Lemma multi_pop_changes_state_on_error :
   exists ops o r s', let s := fst (run ops (init false)) in api o s = Some (CErr r, s') /\ s' <> s.
 Proof.
   exists [OCreate 0 [] false; OPush 0 [[7%Z]]], (OPop 0 [1; 1]), MCO_NOT_ENOUGH_SPACE.
@@ -260,8 +219,42 @@ Proof.
   intro H. apply (f_equal (fun s => option_map co_stored (get 0 (cos s)))) in H. vm_compute in H. discriminate.
 Qed.
 
-Lemma error_unchanged_partial : forall gc ops o r s', let s := fst (run ops (init gc)) in
+(* every error of every call of the library, after any history, leaves the whole state unchanged - except a
+   coroutine.pop of two or more values ([benign]) *)
+Lemma error_unchanged_all : forall gc ops o r s', let s := fst (run ops (init gc)) in
   benign o s -> api o s = Some (CErr r, s') -> s' = s.
 Proof.
   intros gc ops o r s' s B H. eapply error_unchanged; eauto. apply run_Inv, init_Inv.
+Qed.
+
+(* a refused resume WITH arguments: the documented error and the whole state unchanged *)
+Lemma refused_resume_unchanged : forall s k c vals, Inv s -> get k (cos s) = Some c -> co_st c <> Suspended ->
+  (forall e, fst (co_push k vals s) <> CErr e) -> co_resume k vals s = (CErr MCO_NOT_SUSPENDED, s).
+Proof.
+  intros s k c vals I G N P. destruct (co_resume k vals s) as [r s'] eqn:H.
+  destruct (co_resume_cases _ _ _ _ _ I H) as [(-> & s1 & Pp & R)|((e & ->) & ->)].
+  - (* success is impossible: the target is not suspended *)
+    exfalso. assert (S1 : same_ctl s s1) by (destruct vals; [inversion Pp; subst; apply same_ctl_refl|eapply co_push_same; eauto]).
+    destruct S1 as (_ & A & _). specialize (A k). rewrite G in A. unfold mco_resume in R.
+    destruct (get k (cos s1)) as [c1|]; [|discriminate]. simpl in A. inversion A as [[A1 A2]].
+    rewrite A1 in R. destruct (cstate_eqb (co_st c) Suspended) eqn:E; [apply cstate_eqb_eq in E; contradiction|].
+    simpl in R. discriminate.
+  - f_equal. f_equal.
+    (* which error: the push did not fail, so it is the state check of minicoro.resume *)
+    unfold co_resume in H. rewrite resume_rolls_back in H.
+    destruct (match vals with [] => (COk, s) | _ :: _ => co_push k vals s end) as [r1 s1] eqn:Pp.
+    assert (R1 : r1 = COk).
+    { destruct vals; [inversion Pp; reflexivity|]. specialize (P (match r1 with CErr x => x | _ => MCO_SUCCESS end)).
+      rewrite Pp in P. simpl in P. destruct r1; [reflexivity|contradiction|].
+      exfalso. unfold co_push in Pp. destruct (push_loop k (l :: vals) 0 s) as [[e0 p0] s0].
+      destruct (is_success e0); [inversion Pp|]. destruct (mco_pop k false p0 s0) as [[? ?] ?]. inversion Pp. }
+    subst r1.
+    assert (S1 : same_ctl s s1) by (destruct vals; [inversion Pp; subst; apply same_ctl_refl|eapply co_push_same; eauto]).
+    destruct S1 as (_ & A & _). specialize (A k). rewrite G in A.
+    destruct (mco_resume k s1) as [e1 s2] eqn:R. unfold mco_resume in R.
+    destruct (get k (cos s1)) as [c1|]; [|discriminate]. simpl in A. inversion A as [[A1 A2]].
+    rewrite A1 in R. destruct (cstate_eqb (co_st c) Suspended) eqn:E; [apply cstate_eqb_eq in E; contradiction|].
+    simpl in R. inversion R; subst e1 s2. simpl in H.
+    destruct vals; [inversion H; reflexivity|].
+    destruct (mco_pop k false (List.length (List.concat (l :: vals))) s1) as [[? ?] ?]. inversion H. reflexivity.
 Qed.
